@@ -8,7 +8,7 @@ CONSTANTS
   PathValIds = {"i2"}
   VarLeaves = {}
   Numerics = {FALSE, TRUE}
-  RespTypes = {"A", "B"}
+  RespTypes = {"A", "B", "P"}
   ReplyIds = {"full"}
   Calls = 1000000
   Mutant = "none"
